@@ -4,7 +4,7 @@
    _MIR_get_ff_call, machinize_call, target_machinize with fixes C05-1..3 applied; the pinned
    commit's loops are the *_head definitions, refuted below). *)
 From Coq Require Import List ZArith.
-From MirV Require Import C05.SysV C05.AbiImpl C05.AbiProofs.
+From MirV Require Import Base.W64 C05.SysV C05.AbiImpl C05.AbiProofs C05.Conv C05.ConvProofs gen.C05Abi.
 Import ListNotations.
 Local Open Scope Z_scope.
 
@@ -86,6 +86,49 @@ Theorem ff_cache_key_sound : forall i1 i2, wf_args (cs_args i1) = true -> wf_arg
   /\ ff_sub_rsp (cs_args i1) = ff_sub_rsp (cs_args i2).
 Proof. exact ff_cache_key_sound_l. Qed.
 Print Assumptions ff_cache_key_sound.
+
+(* ---- value conversions (tables regenerated from the checked tree on every run: gen/C05Abi.v) ----
+   MIR code receives every declared integer result -- of any result list, whatever its length and
+   mix -- converted to its prototype type and extended to 64 bits, whatever the native callee left in
+   the upper bits of the register: generated code (get_ext_code applied to each result in
+   machinize_call) and the interpreter (result switch of call()); non-integer results pass through *)
+Theorem results_correctly_extended : forall rs raw,
+  received (fun t v => ext_sem (gen_ext_code t) v) rs raw = expected_results rs raw
+  /\ received (fun t v => cast_sem (interp_call_res t) v) rs raw = expected_results rs raw.
+Proof.
+  intros rs raw; split; apply received_ok; intros t v; [exact (gen_ext_is_narrow t v)|exact (interp_res_is_widen t v)].
+Qed.
+Print Assumptions results_correctly_extended.
+
+(* the conversion of a result (and of an argument) looks only at the bits of the prototype type *)
+Theorem conversion_ignores_upper_bits : forall t v w, v mod 2 ^ ity_bits t = w mod 2 ^ ity_bits t ->
+  widen_result t v = widen_result t w /\ narrow t v = narrow t w.
+Proof. intros t v w H; split; exact (narrow_low_bits t v w H). Qed.
+Print Assumptions conversion_ignores_upper_bits.
+
+(* every integer argument is narrowed to its prototype type and extended before it is placed:
+   generated code (get_ext_code) and interpreter (argument switch of call()) *)
+Theorem arguments_narrowed_per_prototype : forall t v,
+  ext_sem (gen_ext_code t) v = Some (narrow t v) /\ cast_sem (interp_call_arg t) v = Some (narrow t v).
+Proof. intros t v; split; [exact (gen_ext_is_narrow t v)|exact (interp_arg_is_narrow t v)]. Qed.
+Print Assumptions arguments_narrowed_per_prototype.
+
+(* GPR n / SSE n of the assignment theorems are the psABI's registers: the register tables of
+   get_int_arg_reg / get_fp_arg_reg (generated code) and iregs[] / max_iregs / max_xregs
+   (_MIR_get_ff_call) are rdi rsi rdx rcx r8 r9 and xmm0..xmm7, in this order, without repetition *)
+Theorem argument_registers_eq_sysv :
+  gen_int_arg_regs = sysv_int_arg_regs /\ gen_fp_arg_regs = sysv_fp_arg_regs
+  /\ ff_iregs = sysv_int_arg_regs /\ ff_max_iregs = max_gpr /\ ff_max_xregs = max_sse
+  /\ Z.of_nat (length sysv_int_arg_regs) = max_gpr /\ Z.of_nat (length sysv_fp_arg_regs) = max_sse
+  /\ NoDup sysv_int_arg_regs /\ NoDup sysv_fp_arg_regs.
+Proof. exact arg_regs_tables. Qed.
+Print Assumptions argument_registers_eq_sysv.
+
+(* non-vacuity: three results with dirty upper halves *)
+Example results_extended_example :
+  received (fun t v => ext_sem (gen_ext_code t) v) [RInt I8; RD; RInt U16] [0x1234567890abcd80; 77; 0xffffffffffff8001]
+  = [Some 0xffffffffffffff80; Some 77; Some 0x8001].
+Proof. reflexivity. Qed.
 
 (* The loops of the pinned commit (before fixes C05-1..3) do NOT satisfy the theorems above:
    witnesses, replayed by ./check C05 on the real code. *)
